@@ -28,6 +28,7 @@ class Model:
         self.ops = {}       # (act, pc) -> (s, e, deadline)
         self.pending_children = {}
         self.pending_volatile = {}
+        self.scope_keys = {}
         self.begins = {}    # act -> (start time, deadline)
         self.program = program
         self.triggers = triggers or {}   # extra notification kinds: name -> fn(t0) -> trigger time
@@ -91,8 +92,29 @@ class Model:
             return self.resolver(op[1], s, act, pc) if self.resolver else self.trigger(op[1], s)
         if k in ('NOP', 'PROBE', 'CANCEL', 'SET', 'TADD', 'TSET'):
             return s
+        if k == 'TRY':
+            return self.block(act, op[1], pc, s, deadline)
+        if k == 'FINALLY':
+            e = self.block(act, op[1], pc + ('t',), s, deadline)
+            if e < deadline:
+                # the body ended by itself: the cleanup part runs then (it may spawn into a scope that is still open)
+                return self.block(act, op[2], pc + ('f',), e, deadline)
+            return e
+        if k in ('INTERVAL', 'DELAYLOOP'):
+            period, n, bodies = op[1], op[2], op[3]
+            t = s
+            for i in range(n):
+                tick = (s + (i + 1) * period) if k == 'INTERVAL' else (t + period)
+                if t > tick:
+                    return t            # IntervalExceeded is raised at once
+                body = bodies[i] if i < len(bodies) else []
+                t = self.block(act, body, pc + ('b', i + 1), tick, deadline)
+                if t == NEVER:
+                    return NEVER
+            return t
         if k == 'UNTIL':
             name, notif, body = op[1], op[2], op[3]
+            self.scope_keys[name] = (act, pc)
             tr = self.resolver(notif, s, act, pc) if self.resolver else self.trigger(notif, s)
             inner = min(deadline, tr)
             self.pending_children[(act, pc)] = []
@@ -104,6 +126,7 @@ class Model:
             return end
         if k == 'SCOPE':
             name, body = op[1], op[2]
+            self.scope_keys[name] = (act, pc)
             self.pending_children[(act, pc)] = []
             self.pending_volatile[(act, pc)] = []
             body_end = self.block(act, body, pc, s, deadline)
@@ -125,10 +148,15 @@ class Model:
                 cs = s
             # innermost enclosing scope op of this activity = longest pc prefix in pending_children
             owner = None
-            for n in range(len(pc) - 1, 0, -1):
-                if (act, pc[:n]) in self.pending_children:
-                    owner = (act, pc[:n])
-                    break
+            if opts.get('scope') is not None:
+                owner = self.scope_keys.get(opts['scope'])
+                if owner not in self.pending_children:
+                    return s            # the named scope has ended (or is not modelled): the spawn is refused
+            else:
+                for n in range(len(pc) - 1, 0, -1):
+                    if (act, pc[:n]) in self.pending_children:
+                        owner = (act, pc[:n])
+                        break
             if owner is None:
                 raise Invalid('DO outside a scope')
             if opts.get('volatile'):
@@ -143,17 +171,20 @@ class Model:
         raise ValueError('clock model does not know %r' % (k,))
 
 
-def judge_times(model, log, tol=0):
-    """Compare the log of an execution with the clock model. Returns a list of messages."""
+def judge_times(model, log, tol=0, only=None):
+    """Compare the log of an execution with the clock model. Returns a list of messages.
+    only: predicate(act, pc) selecting the operations to judge (default: all, and unknown records are violations)"""
     msgs = []
     seen = {}
     for idx, (kind, act, pc, now, data) in enumerate(log):
         if kind in ('start', 'end', 'exc'):
             seen.setdefault((act, pc), {})[kind] = now
     for key, rec in seen.items():
-        if key not in model.ops:
+        if key not in model.ops and only is None:
             msgs.append('%s %r ran (%r) but the clock model says it is never reached' % (key[0], key[1], rec))
     for key, (s, e, dl) in model.ops.items():
+        if only is not None and not only(*key):
+            continue
         rec = seen.get(key, {})
         act, pc = key
         started = 'start' in rec
